@@ -24,7 +24,7 @@ REAL_VS_STUB = {
     'stub': ['multiprocessing.Lock and RawValue (shared-memory stub under the scheduler)', 'choice of which process runs', 'fault injection (KILL, RAISE, FORK_FAIL, ALLOC_FAIL, BOMB)'],
 }
 
-EXPR_FAMILIES = ['P1', 'P2', 'P3', 'P4', 'P5', 'P6', 'P7', 'P9', 'P10', 'P14']
+EXPR_FAMILIES = ['P1', 'P2', 'P3', 'P4', 'P5', 'P6', 'P7', 'P9', 'P10', 'P14', 'P15', 'P15']
 YIELD_KINDS = {K[k] for k in ('FORK', 'EXIT', 'WAIT', 'KILLSIG', 'ACQ', 'REL', 'RGET', 'RSET', 'LINE')}
 
 
@@ -76,6 +76,8 @@ def gen_case(rng, index, tier):
     r = rng.random()
     if r < 0.72:
         prog = workloads.gen_prog(rng, EXPR_FAMILIES)
+        if tier == 'thorough' and rng.random() < 0.3:
+            prog['n'] = rng.choice([8, 12, 16])   # deeper bounds in the thorough tier
         kind = 'expr'
     elif r < 0.86:
         prog = gen_fem(rng)
@@ -86,7 +88,7 @@ def gen_case(rng, index, tier):
     else:
         prog = dict(family='P13', n=rng.choice([2, 3, 5]), m=rng.choice([1, 2]), inner=workloads.gen_prog(rng, ['P1', 'P4', 'P5'], small=True), dseed=rng.randrange(1 << 30))
         kind = 'nested'
-    nprocs = rng.choice([2, 2, 2, 3, 3, 3, 4, 4, 5])
+    nprocs = rng.choice([2, 2, 2, 3, 3, 3, 4, 4, 5] + ([6, 7] if tier == 'thorough' else []))
     gran = 'line' if rng.random() < 0.3 else 'sync'
     case = dict(kind=kind, prog=prog, nprocs=nprocs, compile_procs=rng.choice([2, nprocs, nprocs, 7]), gran=gran,
                 sched=gen_sched(rng), faults=[], cfg=dict(cache=rng.random() < 0.7, twice=rng.random() < 0.3))
